@@ -34,6 +34,7 @@ func checkC06(p *Prog, r *Report) {
 	c06MeasuredWater(p, r)
 	// field capacity below the table is stated against the table the inputs describe: the configured phase reaches the model unchanged (shared with C20.R5)
 	c20PhaseAs(p, r, "C06.R9")
+	c20SeriesIdAs(p, r, "C06.R10")
 	r.Note("not decided: NaN/Inf created inside the functions excluded by name (solar geometry, photosynthesis light response, crop development, residue tables), overflow to infinity of finite operands, NaN read from input files, and bounds over multi-day histories")
 }
 
